@@ -3,16 +3,25 @@ from .. import gen, oracles, tablecheck
 
 CLAIM = True
 MODULE = "SysLoss.Props.C04"
-MODULES = ["SysLoss.Props.C04", "SysLoss.Props.C04Tree"]
+MODULES = ["SysLoss.Props.C04", "SysLoss.Props.C04Tree", "SysLoss.Props.C04Atol"]
 THEOREMS = ["SysLoss.C04." + t for t in (
     "dead_input", "dead_input_power", "dead_source", "mux_no_live", "priInpAux_none_of_all_zero", "sleep_current", "sleep_current_mux", "dead_child", "dead_chain",
     # Props/C04Tree: whole subtrees incl. PMux nodes and PMux children, the table rows, and the solver's iterates
     "dead_subtree", "steady_of_sweeps", "dead_subtree_of_sweeps", "dead_mux", "Below.mux_of_or", "childShare_dead", "childCurr_dead",
     "dead_rows", "dead_rows_of_sweeps", "childsOK_of_b", "fwd_dead_single", "back_dead_single", "dead_input_flag", "dead_after_sweeps",
-    "deadTo_step", "loop_dead", "dead_after_k_sweeps", "alwaysDead_source")]
+    "deadTo_step", "loop_dead", "dead_after_k_sweeps", "alwaysDead_source")] + ["SysLoss.C04A." + t for t in (
+    # Props/C04Atol: the property at a TOLERANCE exit of the solver (finding F38): what is false, and what holds instead
+    "f38_dead_supply_witness", "f38_sleep_current_witness", "f38_sleep_converter_witness", "deep_not_bounded_witness",
+    "converged_pointwise", "convergedAt_bound", "tolerance_exit_bound", "dead_cell_within_atol", "dead_below_source_within_atol",
+    "sleep_current_within_atol", "atol_zero_exact", "atol_zero_dead_rows")]
 LEVEL_TEXT = ("Theorems (Lean 4, any ordered field): every non-source kind with a dead (0 V or flagged) supply outputs 0 V, draws 0 A and reports zero power and loss; a 0 V or phase-inactive Source and a PMux without live input likewise; a phase-inactive converter/regulator/switch/mux on a live supply draws exactly its sleep current; and in every steady state of a whole system each single-supply component below a node at 0 V is at 0 V / 0 A, hence (induction along the chain) everything below it; Props/C04Tree extends this to whole subtrees (`dead_subtree`: every node all of whose supplies are dead, PMux nodes with only dead inputs and PMux children running from another live input included), to the assembled table rows (`dead_rows`: Vin = Vout = Iin = Iout = Power = Loss = 0) and to the solver's own iterates (`dead_after_sweeps`, `loop_dead`, `dead_after_k_sweeps`: death moves one level per sweep, so what solve() returns after k sweeps is exactly 0 V / 0 A down to depth k-1 below a structurally dead source). Tied to the code on every run: all cells of trees with planted dead elements re-assembled by the model from the implementation's (v,i) (1e-9), one more model sweep reproduces (v,i), and the oracle demands exact zeros below every structurally dead element.")
 LEVEL_NOTE = ('Exact-steady-state theorems cover arbitrary trees incl. the mux; the iterate form (`dead_after_k_sweeps`) covers single-supply levels within iters-1 of a dead source - a tolerance exit before the dead front has reached deeper nodes is not excluded by a theorem (the oracle demands exact zeros on every generated case).')
-LEVEL_NOTE = LEVEL_NOTE + (" F38 (open, two faces - `F38-C04-ATOL`, `F38-C04-ATOL-SLEEP`): when every current of a phase is below numpy's fixed atol 1e-8 the solver returns its initial guess; the theorems say what k sweeps guarantee, here k = 1.")
+LEVEL_NOTE = LEVEL_NOTE + (" F38 (open, three faces - `F38-C04-ATOL`, `-SLEEP`, `-DEEP`): what solve() returns is a TOLERANCE exit (numpy's fixed atol 1e-8, previous iterate returned). "
+              "Props/C04Atol proves on the model what that means: the exact-zero and exact-sleep-current clauses are FALSE there (`f38_dead_supply_witness`, "
+              "`f38_sleep_current_witness`, `deep_not_bounded_witness`: kernel-checked witnesses at the implementation's default settings, each reproduced on /repo), what holds "
+              "instead is |cell| <= atol one level below the dead element and |Iin - iis| <= atol + itol*iis for a sleeping stage (`dead_cell_within_atol`, "
+              "`dead_below_source_within_atol`, `sleep_current_within_atol`, from `tolerance_exit_bound`), no bound deeper down, and exactness with atol = vtol = itol = 0 "
+              "(`atol_zero_exact`, `atol_zero_dead_rows`). The oracle keeps demanding exact values; deviations of exactly this kind are matched to the three open entries.")
 RULE = ("random power trees with planted dead elements: 0 V sources, phase-inactive sources / converters / regulators / switches / "
         "muxes (component phase lists that omit phases), muxes without live input; non-trivial = at least one phase contains a dead "
         "element with something below or beside it")
